@@ -102,6 +102,7 @@ func init() {
 			r := c.R
 			b := &Batch{Prop: "C11", Name: "vars", Imports: varsImports, CaseType: "vcase", ChkFn: "chk_vars", OutFn: "diag_vars", Codes: true}
 			n := c.N(2400, 40000)
+			oneShotKeys(c)
 			for k := 0; k < n; k++ {
 				conf := eval.NewConfig()
 				conf.OperatorMap["c_id"] = func(_ *eval.Ctx, p []eval.Value) (eval.Value, error) { return p[0], nil }
@@ -286,4 +287,50 @@ func init() {
 			return []*Batch{b}
 		},
 	})
+}
+
+// oneShotKeys: the one-shot helper Eval(source, values, options...) with a configuration whose key map the caller
+// chose (ExtendConf): every variable of the expression reads the value bound to ITS name, whatever other names the
+// value map carries and in whatever order Go iterates it (repeated: the helper builds a fresh key map per call).
+func oneShotKeys(c *RunCtx) {
+	r := c.R
+	for rep := 0; rep < c.N(60, 2000); rep++ {
+		names := []string{"a", "b", "c", "d", "e"}[:3+r.Intn(3)]
+		cc := eval.NewConfig()
+		for i, n := range names {
+			cc.VariableKeyMap[n] = eval.VariableKey(i + 1)
+		}
+		vals := map[string]interface{}{}
+		for i, n := range names {
+			vals[n] = int64(10*(i+1) + r.Intn(5))
+		}
+		// names the expression does not mention and the configuration does not know
+		for i := 0; i < 1+r.Intn(4); i++ {
+			vals[fmt.Sprintf("extra%d", i)] = int64(100 + i)
+		}
+		for _, n := range names {
+			src := "(+ " + n + " 0)"
+			var got string
+			guarded(map[string]interface{}{"call": "Eval(source, values, ExtendConf)", "source": src}, func() {
+				defer func() {
+					if p := recover(); p != nil {
+						got = fmt.Sprintf("panic: %v", p)
+					}
+				}()
+				v, err := eval.Eval(src, vals, eval.ExtendConf(cc))
+				if err != nil {
+					got = "error: " + err.Error()
+				} else {
+					got = fmt.Sprintf("%T %v", v, v)
+				}
+			})
+			c.ExploreEvals++
+			if want := fmt.Sprintf("int64 %v", vals[n]); got != want {
+				c.Direct = append(c.Direct, DirectViolation{What: "one-shot Eval with a caller-chosen key map: a variable does not read the value bound to its name", Sig: "c11-one-shot",
+					Sample: map[string]interface{}{"source": src, "key_map": fmt.Sprint(cc.VariableKeyMap), "values": fmt.Sprint(vals), "got": got, "want": want}})
+				return
+			}
+		}
+	}
+	c.ExploreHist["one-shot-helper"]++
 }
